@@ -562,6 +562,10 @@ func (x *Exec) rangeFacts(v Value, t types.Type, st *State) []*Term {
 	case *types.Interface:
 		i := v.(IfaceV)
 		out = append(out, c.Le(c.Int(0), i.Tag))
+		if st != nil && x.fc != nil && x.fc.FreshFrames {
+			// a value whose dynamic type is a pointer type carries a reference that exists
+			out = append(out, c.Implies(c.Le(c.Int(ptrTagBase), i.Tag), c.And(c.Le(c.Int(0), i.Val), c.Lt(i.Val, st.allocTop))))
+		}
 	case *types.Struct:
 		s := v.(StructV)
 		for i := 0; i < u.NumFields(); i++ {
@@ -575,3 +579,6 @@ func (x *Exec) rangeFacts(v Value, t types.Type, st *State) []*Term {
 	}
 	return out
 }
+
+// ptrTagBase: under fresh-frames the type identifiers of pointer types are at least this (typeID).
+const ptrTagBase = 1000000
